@@ -15,7 +15,7 @@ PROP = dict(
          "comment characters, span deletion; one in four mutated twice), the whole programs, 300 grammar-garbage texts / "
          "(thorough) every prefix at every char boundary of every program, 200 mutations each, 5000 garbage texts; per text "
          "check_lsp, errors(), then definition_at, type_at, completions_at at EVERY byte offset 0..=len+2 (inside multi-byte "
-         "characters and past the end included), each under catch_unwind, in child processes (a dead or silent worker is a "
+         "characters and past the end included), each under catch_unwind, in child processes (a dead worker is a failing input; a worker silent for 40 s is re-run alone and judged by 300 s of its own CPU time) (a dead worker is a "
          "failing input too); one spec failure per distinct panic site, shrunk to the shortest failing prefix; for a sample of the "
          "texts (every 6th / 40th) both AST searches are compared with the Lean model at every offset on the error-recovered "
          "tree. distinct = distinct (tree, search); non-trivial = the answer names a node",
